@@ -12,7 +12,7 @@ Definition vec := list Qc.
 Definition mat := list vec.
 
 (* Python exception class of a refusal *)
-Inductive err := ENotImpl | EValue | EIndex.
+Inductive err := ENotImpl | EValue | EIndex | EKey.
 Inductive res (A : Type) := Ok (a : A) | Err (e : err).
 Arguments Ok {A}. Arguments Err {A}.
 
@@ -245,7 +245,8 @@ Definition ggrad_sel (gg : ggrad) : tsel :=
 Record quirks := mkQ {
   q_defeq : bool;          (* _DefaultGeometry1D.__eq__ accepts strict subclasses of Continuous1D *)
   q_samples_par : bool;    (* _apply_func treats every Samples column as parameters (flag ignored) *)
-  q_eqidx : bool           (* _all_values_equal indexes list attributes of different length: IndexError *)
+  q_eqidx : bool           (* _all_values_equal indexes list attributes of different length (IndexError)
+                              and looks up every attribute of the left operand in the right one (KeyError) *)
 }.
 Definition q_today : quirks := mkQ true true true.
 Definition q_fixed : quirks := mkQ false false false.
@@ -257,6 +258,17 @@ Definition fields_eqb (a b : geo) : bool :=
   opt_eqb ggrad_eqb (g_grad a) (g_grad b) && Nat.eqb (g_vid a) (g_vid b).
 Definition grid_eqb (a b : geo) : bool := Nat.eqb (g_nfun a) (g_nfun b) && Nat.eqb (g_vid a) (g_vid b).
 
+(* `gradient` attached to a geometry OBJECT (geometry.gradient = f, as the library's tests and demos do):
+   an entry of vars() that only one of two otherwise equal geometries has.  _all_values_equal walks
+   vars(left): an attribute only the right operand has is never looked at *)
+Definition set_grad (g : geo) (gr : option ggrad) : geo :=
+  mkGeo (g_cls g) (g_pdim g) (g_nfun g) (g_conv g) (g_map g) (g_f2p g) gr (g_vid g).
+Definition inst_grad_class (k : gclass) : bool := match k with KStep | KMapped => true | _ => false end.
+Definition grad_only_left (a b : geo) : bool :=
+  inst_grad_class (g_cls a) && has_grad a && negb (has_grad b) && fields_eqb (set_grad a None) b.
+Definition grad_only_right (a b : geo) : bool :=
+  inst_grad_class (g_cls a) && negb (has_grad a) && has_grad b && fields_eqb a (set_grad b None).
+
 Definition geo_eqb (q : quirks) (a b : geo) : bool :=
   match g_cls a, g_cls b with
   | KDefault1D, KCont1D | KCont1D, KDefault1D => grid_eqb a b
@@ -264,7 +276,7 @@ Definition geo_eqb (q : quirks) (a b : geo) : bool :=
   | KDefault2D, KImage2D | KImage2D, KDefault2D =>
       conv_eqb (g_conv a) (g_conv b) && Nat.eqb (g_pdim a) (g_pdim b) && Nat.eqb (g_vid a) (g_vid b)
       && opt_qcl_eqb (g_map a) (g_map b) && f2p_eqb (g_f2p a) (g_f2p b)
-  | _, _ => fields_eqb a b
+  | _, _ => fields_eqb a b || grad_only_right a b
   end.
 
 (* ... and as it actually runs: two Discrete geometries with a different number of variables make
@@ -273,7 +285,7 @@ Definition geo_eq (q : quirks) (a b : geo) : res bool :=
   match g_cls a, g_cls b with
   | KDiscrete, KDiscrete =>
       if q_eqidx q && negb (Nat.eqb (g_pdim a) (g_pdim b)) then Err EIndex else Ok (geo_eqb q a b)
-  | _, _ => Ok (geo_eqb q a b)
+  | _, _ => if q_eqidx q && grad_only_left a b then Err EKey else Ok (geo_eqb q a b)
   end.
 
 (* ------------------------------------------------------------------------------------------ *)
@@ -478,7 +490,7 @@ Definition poly_dir (n : nat) (A : mat) (dcs : list Qc) (d w : vec) : vec :=
 (* checkers for the generated case files                                                        *)
 (* ------------------------------------------------------------------------------------------ *)
 Definition err_eqb (a b : err) : bool :=
-  match a, b with ENotImpl, ENotImpl | EValue, EValue | EIndex, EIndex => true | _, _ => false end.
+  match a, b with ENotImpl, ENotImpl | EValue, EValue | EIndex, EIndex | EKey, EKey => true | _, _ => false end.
 
 (* observed output: kind (0 ndarray, 1 CUQIarray, 2 Samples) + columns, or the exception class;
    geometry identity (`out.geometry is model.range_geometry`) is reported by the harness as a flag *)
